@@ -318,6 +318,8 @@ def _tl(x, world=None):
         x = list(x)
         if world is not None and world.spec.get("container") == "keys":
             return dict.fromkeys(x).keys()  # a valid Collection of ids that copy.copy() cannot duplicate
+        if world is not None and world.spec.get("container") == "set":
+            x = set(x)  # the caller's own set, which it goes on editing
         if world is not None:
             world.passed.append(x)
     return x
